@@ -91,7 +91,8 @@ fn universe(tier: Tier) -> Universe {
     match tier {
         Tier::Quick => Universe {
             buckets: vec!["bkt-one".into()],
-            keys: vec!["k1".into(), "d/k2".into()],
+            // (the first key carries the characters a key may legally contain and a file name has to survive: blank, +, %, non-ASCII, ~)
+            keys: vec!["k1 +%é~".into(), "d/k2".into()],
             // empty, a few bytes (so that every Range form has a non-trivial slice), one byte more than the read buffer
             contents: vec![Arc::new(vec![]), Arc::new(b"abcde".to_vec()), Arc::new((0..4097u32).map(|i| (i % 251) as u8).collect())],
             metas: vec![None, m],
@@ -101,7 +102,7 @@ fn universe(tier: Tier) -> Universe {
         },
         Tier::Thorough => Universe {
             buckets: vec!["bkt-one".into(), "bkt-two".into()],
-            keys: vec!["k1".into(), "d/k2".into(), "d/k3".into()],
+            keys: vec!["k1 +%é~".into(), "d/k2".into(), "d/k3".into()],
             contents: vec![Arc::new(vec![]), Arc::new(b"x".to_vec()), Arc::new((0..4097u32).map(|i| (i % 251) as u8).collect()), Arc::new((0..12289u32).map(|i| (i % 241) as u8).collect())],
             metas: vec![None, m],
             part_contents: vec![Arc::new(b"P".to_vec()), Arc::new(b"QQ".to_vec())],
